@@ -19,6 +19,25 @@ use std::fmt;
 use std::hash::{Hash, Hasher};
 use std::sync::Arc;
 
+/// Evaluate an aggregate INPUT expression, handing back a plain array.
+///
+/// Join outputs carry small-build string columns dictionary-encoded. The
+/// accumulators of this file dispatch on the concrete array type
+/// (`StringArray`, `Int64Array`, ...) and have no `Dictionary` arm, so
+/// MIN/MAX over such a column silently ignored every value and returned NULL
+/// (`SELECT MIN(t.s) FROM t LEFT JOIN u ...`). Group keys keep their
+/// dictionaries (extract_group_value resolves them); only aggregate inputs
+/// are decoded here.
+fn evaluate_agg_input(batch: &RecordBatch, expr: &Expr) -> Result<ArrayRef> {
+    let arr = evaluate_expr(batch, expr)?;
+    match arr.data_type() {
+        DataType::Dictionary(_, value_type) => {
+            arrow::compute::cast(arr.as_ref(), value_type).map_err(Into::into)
+        }
+        _ => Ok(arr),
+    }
+}
+
 /// Hash aggregate execution operator
 #[derive(Debug)]
 pub struct HashAggregateExec {
@@ -572,7 +591,7 @@ fn aggregate_batches_vectorized(
 
         let agg_inputs: Result<Vec<ArrayRef>> = aggregates
             .iter()
-            .map(|a| evaluate_expr(batch, &a.input))
+            .map(|a| evaluate_agg_input(batch, &a.input))
             .collect();
         all_agg_inputs.push(agg_inputs?);
     }
@@ -1329,7 +1348,7 @@ fn build_partial_hash_table(
         // Evaluate aggregate inputs
         let agg_inputs: Result<Vec<ArrayRef>> = aggregates
             .iter()
-            .map(|a| evaluate_expr(batch, &a.input))
+            .map(|a| evaluate_agg_input(batch, &a.input))
             .collect();
         let agg_inputs = agg_inputs?;
 
@@ -1505,7 +1524,7 @@ fn aggregate_scalar_simd(
     aggregate: &AggregateExpr,
     schema: &SchemaRef,
 ) -> Result<RecordBatch> {
-    let input = evaluate_expr(batch, &aggregate.input)?;
+    let input = evaluate_agg_input(batch, &aggregate.input)?;
 
     let result: ArrayRef = match aggregate.func {
         AggregateFunction::Count => {
@@ -1567,14 +1586,14 @@ fn aggregate_scalar_simd(
         }
         AggregateFunction::Min => {
             if let Some(a) = input.as_any().downcast_ref::<Int64Array>() {
-                let min = a.iter().flatten().min().unwrap_or(i64::MAX);
+                // MIN/MAX over no non-NULL value is NULL (not a sentinel)
+                let min: Option<i64> = a.iter().flatten().min();
                 Arc::new(Int64Array::from(vec![min]))
             } else if let Some(a) = input.as_any().downcast_ref::<Float64Array>() {
-                let min = a
+                let min: Option<f64> = a
                     .iter()
                     .flatten()
-                    .min_by(|a, b| a.partial_cmp(b).unwrap())
-                    .unwrap_or(f64::MAX);
+                    .min_by(|a, b| a.partial_cmp(b).unwrap());
                 Arc::new(Float64Array::from(vec![min]))
             } else if let Some(a) = input.as_any().downcast_ref::<StringArray>() {
                 let min = a.iter().flatten().min();
@@ -1583,7 +1602,7 @@ fn aggregate_scalar_simd(
                     None => Arc::new(StringArray::from(vec![Option::<&str>::None])),
                 }
             } else if let Some(a) = input.as_any().downcast_ref::<Date32Array>() {
-                let min = a.iter().flatten().min().unwrap_or(i32::MAX);
+                let min: Option<i32> = a.iter().flatten().min();
                 Arc::new(Date32Array::from(vec![min]))
             } else {
                 return Err(QueryError::NotImplemented(format!(
@@ -1594,14 +1613,13 @@ fn aggregate_scalar_simd(
         }
         AggregateFunction::Max => {
             if let Some(a) = input.as_any().downcast_ref::<Int64Array>() {
-                let max = a.iter().flatten().max().unwrap_or(i64::MIN);
+                let max: Option<i64> = a.iter().flatten().max();
                 Arc::new(Int64Array::from(vec![max]))
             } else if let Some(a) = input.as_any().downcast_ref::<Float64Array>() {
-                let max = a
+                let max: Option<f64> = a
                     .iter()
                     .flatten()
-                    .max_by(|a, b| a.partial_cmp(b).unwrap())
-                    .unwrap_or(f64::MIN);
+                    .max_by(|a, b| a.partial_cmp(b).unwrap());
                 Arc::new(Float64Array::from(vec![max]))
             } else if let Some(a) = input.as_any().downcast_ref::<StringArray>() {
                 let max = a.iter().flatten().max();
@@ -1610,7 +1628,7 @@ fn aggregate_scalar_simd(
                     None => Arc::new(StringArray::from(vec![Option::<&str>::None])),
                 }
             } else if let Some(a) = input.as_any().downcast_ref::<Date32Array>() {
-                let max = a.iter().flatten().max().unwrap_or(i32::MIN);
+                let max: Option<i32> = a.iter().flatten().max();
                 Arc::new(Date32Array::from(vec![max]))
             } else {
                 return Err(QueryError::NotImplemented(format!(
@@ -2022,7 +2040,7 @@ fn aggregate_batches_hash(
         // Evaluate aggregate inputs
         let agg_inputs: Result<Vec<ArrayRef>> = aggregates
             .iter()
-            .map(|a| evaluate_expr(batch, &a.input))
+            .map(|a| evaluate_agg_input(batch, &a.input))
             .collect();
         let agg_inputs = agg_inputs?;
 
